@@ -107,7 +107,7 @@ AsCoded(e, i) ==
            LET st == i.lt  dt == i.rt IN
            IF st.k = "float" THEN
                IF e.l.c # "fin" THEN FALSE
-               ELSE IF dt.k = "int" THEN MatchesRConv(FloatToInt(i.tag, FVal(e.l), st.p, AsIntT(dt)), e.out, J(e.res))
+               ELSE IF dt.k = "int" THEN MatchesRConv(FloatToInt(i.tag, FVal(e.l), st.p, 64, AsIntT(dt)), e.out, J(e.res))
                ELSE IF dt.k = "scaled" /\ dt.r = 2 /\ dt.rep.k = "int"
                     THEN MatchesRConv(FloatToScaled(i.tag, FVal(e.l), st.p, AsIntT(dt.rep), dt.e), e.out, J(e.res))
                ELSE FALSE
